@@ -55,6 +55,9 @@ static ARun run_approx_t(const std::string &entry, const GraphSpec &s, std::size
         if (entry == "approx_mcb_sva_signed") ret = parmcb::approx_mcb_sva_signed(bg.g, wm, k, std::back_inserter(cycles));
         else if (entry == "approx_mcb_sva_fvs_trees") ret = parmcb::approx_mcb_sva_fvs_trees(bg.g, wm, k, std::back_inserter(cycles));
         else if (entry == "approx_mcb_sva_iso_trees") ret = parmcb::approx_mcb_sva_iso_trees(bg.g, wm, k, std::back_inserter(cycles));
+        else if (entry == "approx_mcb_sva_signed_tbb") ret = parmcb::approx_mcb_sva_signed_tbb(bg.g, wm, k, std::back_inserter(cycles));
+        else if (entry == "approx_mcb_sva_fvs_trees_tbb") ret = parmcb::approx_mcb_sva_fvs_trees_tbb(bg.g, wm, k, std::back_inserter(cycles));
+        else if (entry == "approx_mcb_sva_iso_trees_tbb") ret = parmcb::approx_mcb_sva_iso_trees_tbb(bg.g, wm, k, std::back_inserter(cycles));
         else { r.threw = true; r.what = "unknown entry"; return r; }
         r.returned = (double) ret;
     } catch (const std::exception &e) {
@@ -109,6 +112,9 @@ static Case gen_approx(bool allow_zero) {
     return c;
 }
 static Case gen_c05() { return gen_approx(false); }
+static const char *APPROX6[] = {"approx_mcb_sva_signed", "approx_mcb_sva_fvs_trees", "approx_mcb_sva_iso_trees",
+                                "approx_mcb_sva_signed_tbb", "approx_mcb_sva_fvs_trees_tbb", "approx_mcb_sva_iso_trees_tbb"};
+static Case gen_c07a() { Case c = gen_approx(false); c.entry = APPROX6[pick(0, 5)]; return c; }
 static Case gen_c06() { return gen_approx(true); }
 
 static std::string kclass(long k) { return k == 0 ? "k0" : k == 1 ? "k1" : k == 2 ? "k2" : k == 3 ? "k3" : k <= 8 ? "k4-8" : "k-huge"; }
@@ -290,6 +296,7 @@ int main(int argc, char **argv) {
     if (getenv("VERIF_MAXN")) g_maxN = atoi(getenv("VERIF_MAXN"));
     std::map<std::string, Prop> props;
     props["C05"] = Prop{gen_c05, check_c05};
+    props["C07A"] = Prop{gen_c07a, check_c05};
     props["C06"] = Prop{gen_c06, check_c06};
     props["C15"] = Prop{gen_c15, check_c15};
     return run_main(argc, argv, props);
